@@ -19,6 +19,8 @@ def _dep(kind, a, b, c):
         return lambda x, a=a, b=b, c=c: a + b * np.exp(c * x)
     if kind == "lin":
         return lambda x, a=a, b=b, c=c: a + b * x
+    if kind == "step":      # jump at x = c: the conditional distribution moves abruptly (disconnected regions)
+        return lambda x, a=a, b=b, c=c: a + b * (np.asarray(x) > c)
     raise ValueError(kind)
 
 
@@ -89,14 +91,26 @@ def gen_conditional(rng, cond):
             "dep": {"alpha": ["power3", r3(rng, 0.3, 1.5), r3(rng, 0.2, 1.0), r3(rng, 0.3, 1.0)]}}
 
 
+def gen_multimodal_desc(rng):
+    """2-D model whose second variable jumps at a threshold of the first: the enclosed region falls apart"""
+    m = {"family": "weibull", "params": {"alpha": r3(rng, 2.0, 3.5), "beta": r3(rng, 1.8, 3.0), "gamma": 0.0}}
+    t = r3(rng, 1.5, 2.5)
+    c = {"family": "lognormal", "cond": 0, "params": {"sigma": r3(rng, 0.05, 0.12)},
+         "dep": {"mu": ["step", r3(rng, 0.2, 0.6), r3(rng, 1.2, 2.0), t]}}
+    return {"dims": [m, c]}
+
+
 def gen_model_desc(rng, n_dim, multimodal=False):
+    if multimodal and n_dim == 2:
+        return gen_multimodal_desc(rng)
     dims = [gen_marginal(rng)]
     for d in range(1, n_dim):
         r = rng.random()
-        if r < 0.2:
+        parents = [k for k in range(d) if dims[k]["family"] != "normal"]    # a conditioning variable must be positive
+        if r < 0.2 or not parents:
             dims.append(gen_marginal(rng))
         else:
-            dims.append(gen_conditional(rng, rng.randrange(0, d)))
+            dims.append(gen_conditional(rng, rng.choice(parents)))
     return {"dims": dims}
 
 
